@@ -1926,10 +1926,28 @@ def _alias_pool(rng):
     return pool
 
 
+class _FirstDraw(object):
+    """a stand-in for the driver's generator whose first randrange returns a fixed seed (used by replays)"""
+
+    def __init__(self, seed):
+        self.seed = seed
+
+    def randrange(self, *a):
+        return self.seed
+
+
 def _alias_pool_probes(rng, out):
     """solvers on square operators from the pool against the NumPy recursion on the measured matrices"""
     import odl
     S = odl.solvers
+    seed = rng.randrange(2 ** 31)
+    rng = __import__('random').Random(seed)
+
+    class _Fixed(object):               # what the replay passes in: a generator whose first draw is `seed`
+        pass
+    REPLAY = ("import sys, random\nsys.path.insert(0, %r)\nfrom harness import c12\nout=[]\n"
+              "c12._alias_pool_probes(random.Random(%d), out)\nbad=[(p.key, p.detail) for p in out if not p.ok]\n"
+              "observed=bad[:2]; ok=not bad\n" % (C.VERIF, seed))
     for name, op in _alias_pool(rng):
         M, Mt = _matrix(op), _matrix(op.adjoint)
         n = M.shape[0]
@@ -1949,7 +1967,7 @@ def _alias_pool_probes(rng, out):
             y = y - om * Mt.dot(M.dot(y) - b)
             ref.append(y.copy())
         _P(out, close(tr, ref), 'alias-pool-landweber-%s' % name,
-           'landweber on %s (domain == range) equals the NumPy recursion x - omega A^*(A x - b)' % name, None,
+           'landweber on %s (domain == range) equals the NumPy recursion x - omega A^*(A x - b)' % name, REPLAY,
            {'M': M.tolist(), 'b': b.tolist(), 'x0': x0.tolist(), 'omega': om, 'got': [t.tolist() for t in tr[:2]],
             'want': [t.tolist() for t in ref[:2]]})
         # kaczmarz with the operator twice (two right-hand sides)
@@ -1962,7 +1980,7 @@ def _alias_pool_probes(rng, out):
             for bb, oo in ((b, om), (2 * b, om / 2)):
                 y = y - oo * Mt.dot(M.dot(y) - bb)
                 ref.append(y.copy())
-        _P(out, close(tr, ref), 'alias-pool-kaczmarz-%s' % name, 'kaczmarz on [%s, %s] equals the NumPy recursion' % (name, name), None)
+        _P(out, close(tr, ref), 'alias-pool-kaczmarz-%s' % name, 'kaczmarz on [%s, %s] equals the NumPy recursion' % (name, name), REPLAY)
         # conjugate_gradient_normal
         tr = []
         x = _unflat(op.domain, x0.copy())
@@ -1987,7 +2005,7 @@ def _alias_pool_probes(rng, out):
             ss = ssn
             ref.append(y.copy())
         _P(out, close(tr, ref), 'alias-pool-conjugate_gradient_normal-%s' % name,
-           'conjugate_gradient_normal on %s equals the NumPy recursion' % name, None)
+           'conjugate_gradient_normal on %s equals the NumPy recursion' % name, REPLAY)
         # conjugate_gradient on the self-adjoint positive operator  A^* A + I  built by operator arithmetic
         T = op.adjoint * op + odl.IdentityOperator(op.domain)
         TM = Mt.dot(M) + np.eye(n)
@@ -2013,13 +2031,13 @@ def _alias_pool_probes(rng, out):
             rr = rn_
             ref.append(y.copy())
         _P(out, close(tr, ref), 'alias-pool-conjugate_gradient-%s' % name,
-           'conjugate_gradient on A^*A + I with A = %s equals the NumPy recursion' % name, None)
+           'conjugate_gradient on A^*A + I with A = %s equals the NumPy recursion' % name, REPLAY)
         # power method on the same self-adjoint operator: never above the largest eigenvalue
         from odl.operator.oputils import power_method_opnorm
         est = float(power_method_opnorm(op, xstart=_unflat(op.domain, np.ones(n)), maxiter=10))
         true = _true_opnorm(op)
         _P(out, est <= true * (1 + 1e-9), 'alias-pool-power-method-%s' % name,
-           'power_method_opnorm(%s) = %r <= %r' % (name, est, true), None)
+           'power_method_opnorm(%s) = %r <= %r' % (name, est, true), REPLAY)
         # non-smooth solvers with L from the pool (operators on rn(n) only): pdhg / admm against NumPy
         if isinstance(op.domain, odl.ProductSpace) or not isinstance(op.domain, type(odl.rn(1))) or op.domain != odl.rn(n):
             continue
@@ -2038,7 +2056,7 @@ def _alias_pool_probes(rng, out):
             xr = 2 * xn - xx
             xx = xn
             ref.append(xx.copy())
-        _P(out, close(tr, ref), 'alias-pool-pdhg-%s' % name, 'pdhg with L = %s equals the NumPy recursion' % name, None)
+        _P(out, close(tr, ref), 'alias-pool-pdhg-%s' % name, 'pdhg with L = %s equals the NumPy recursion' % name, REPLAY)
         tr = []
         x = sp.element(x0.copy())
         S.admm_linearized(x, f, g, op, 0.125, 1.0, 3, callback=lambda z: tr.append(_flat(z).copy()))
@@ -2052,7 +2070,7 @@ def _alias_pool_probes(rng, out):
             uu = uu + Lx - zn
             zz = zn
             ref.append(xx.copy())
-        _P(out, close(tr, ref), 'alias-pool-admm_linearized-%s' % name, 'admm_linearized with L = %s equals the NumPy recursion' % name, None)
+        _P(out, close(tr, ref), 'alias-pool-admm_linearized-%s' % name, 'admm_linearized with L = %s equals the NumPy recursion' % name, REPLAY)
 
 
 def search(rng, broken):
